@@ -148,6 +148,10 @@ impl TextDecoder {
     fn init_text_buffer(&mut self) {
         // repeat() avoids utf8 check comapred to `String::from_utf8(vec![0; len])`
         self.text_buffer = "\0".repeat(DEFAULT_BUFFER_LEN);
+        #[cfg(feature = "_verif_hooks")]
+        if crate::verif::knob(0, DEFAULT_BUFFER_LEN) != DEFAULT_BUFFER_LEN {
+            self.text_buffer = "\0".repeat(crate::verif::knob(0, DEFAULT_BUFFER_LEN));
+        }
     }
 
     /// Fast path for UTF-8 or ASCII prefix
@@ -161,6 +165,10 @@ impl TextDecoder {
     ) -> Option<(&'i str, &'i [u8])> {
         // Can't use the fast path if the decoder may have buffered some bytes
         if self.pending_text_streaming_decoder.is_some() {
+            return None;
+        }
+        #[cfg(feature = "_verif_hooks")]
+        if crate::verif::knob(1, 0) != 0 {
             return None;
         }
 
